@@ -30,6 +30,7 @@ type RunResult struct {
 	TapeLen    int               `json:"tape_len"`
 	Log        []string          `json:"log,omitempty"`
 	tape       []uint32
+	noShrink   bool
 }
 
 // Prop is one property check.
@@ -74,9 +75,12 @@ func RunOnce(t *testing.T, p *Prop, seed uint64, tape *simkit.Tape, tier string,
 	defer wd.Stop()
 	var nontriv bool
 	var sample any
-	func() {
-		nontriv, sample = p.Run(t, env, tier)
-	}()
+	// Each run is a subtest: when the race detector has reported anything, the
+	// testing package ends the goroutine that called synctest.Test (Goexit); the
+	// results are in env.S by then.
+	t.Run("run", func(st *testing.T) {
+		nontriv, sample = p.Run(st, env, tier)
+	})
 	res.Failures = env.S.Failures
 	res.Hash = env.S.Hash()
 	res.Steps = env.S.Steps
@@ -109,6 +113,7 @@ type Replay struct {
 	Trials   int              `json:"shrink_trials"`
 	Crash    bool             `json:"crash,omitempty"`
 	FromSeed bool             `json:"generate_from_seed,omitempty"`
+	Race     bool             `json:"race_build,omitempty"`
 }
 
 func hasTag(fs []simkit.Failure, tag string) *simkit.Failure {
@@ -219,7 +224,11 @@ func WriteReplay(t *testing.T, p *Prop, res *RunResult, tier, dir string, shrink
 	// record the minimised run verbosely
 	rr := RunOnce(t, p, res.Seed, simkit.ReplayTape(tape), tier, true)
 	rep := &Replay{Property: p.ID, Seed: res.Seed, Tier: tier, Tape: tape, OrigLen: len(res.tape), Trials: trials, Sample: rr.Sample}
-	if g := hasTag(rr.Failures, f.Tag); g != nil {
+	if res.noShrink {
+		// found by an external detector (race detector): the replay is the full tape
+		rep.Tag, rep.Sig, rep.Msg, rep.Failures, rep.Race = f.Tag, f.Sig, f.Msg, res.Failures, true
+		rep.Trace = tail(rr.Log, 200)
+	} else if g := hasTag(rr.Failures, f.Tag); g != nil {
 		rep.Tag, rep.Sig, rep.Msg = g.Tag, g.Sig, g.Msg
 		rep.Failures = rr.Failures
 		rep.Trace = tail(rr.Log, 400)
